@@ -136,10 +136,14 @@ func analyseHang(gap time.Duration) *Hang {
 	if len(h.Dump) > 60000 {
 		h.Dump = h.Dump[:60000]
 	}
-	// signature: the blocked CLIENT-side and loop-side positions, without counts
-	// of idle loops that are blocked in their normal select
+	// signature: the set of blocked positions. Which client operations happen to
+	// queue behind a pending writer differs from run to run, so all index methods
+	// blocked in RLock collapse into one token.
 	uniq := map[string]bool{}
 	for _, b := range h.Blocked {
+		if strings.HasPrefix(b, ".(*indexImpl).") && strings.HasSuffix(b, "[sync.RWMutex.RLock]") {
+			b = ".(*indexImpl).<any> [sync.RWMutex.RLock]"
+		}
 		uniq[b] = true
 	}
 	var parts []string
